@@ -54,6 +54,7 @@ func (m *cmsRedis) Exec(op Tok) (opOut Tok, obs Tok) {
 	inv := TL(TNu(9))
 	switch a[0].I() {
 	case cmsNew:
+		before := redisKeys()
 		s, err := gx.NewCountMinSketchRedis(uint(a[2].U()), uint(a[3].U()))
 		if err != nil {
 			opOut = TL(a[0], a[1], a[2], a[3], TBs(nil), TBs(nil))
@@ -62,6 +63,9 @@ func (m *cmsRedis) Exec(op Tok) (opOut Tok, obs Tok) {
 		_, _, _, key, meta := gx.VerifCMSRedisState(s)
 		opOut = TL(a[0], a[1], a[2], a[3], TBs([]byte(key)), TBs([]byte(meta)))
 		m.inst[a[1].I()] = s
+		if t, bad := staleKey(before, key, meta); bad {
+			return opOut, t
+		}
 		return opOut, TOk(TUnit())
 	case cmsUpdate:
 		s := m.inst[a[1].I()]
@@ -153,11 +157,15 @@ func (m *cmsRedis) Exec(op Tok) (opOut Tok, obs Tok) {
 			return TL(a[0], a[1]), inv
 		}
 		withNew := a[3].U() != 0
+		before := redisKeys()
 		err := s.Import(src, withNew)
 		_, _, _, key, _ := gx.VerifCMSRedisState(s)
 		opOut = TL(a[0], a[1], cmsRedisDocTok(src), TBs([]byte(key)))
 		if err != nil {
 			return opOut, TErr(errGeneric)
+		}
+		if t, bad := staleKey(before, key); withNew && bad {
+			return opOut, t
 		}
 		return opOut, TOk(TUnit())
 	}
